@@ -598,6 +598,12 @@ def stepRest (d : DW) (line : String) : DW × String :=
         | (fw', none) => ({ d with fw := fw' }, "raise"))
      | none => (d, "bad-op"))
   | ["fsnap"] => (d, fworldSnapshot d.fw)
+  | ["funsub", k] =>
+    -- `dispatcher.unsubscribe(observer)`: the observer leaves the subscriber list (and is no longer found by create_or_get_observer);
+    -- the object itself lives on, unchanged from now on
+    (match k.toNat? with
+     | some id => if d.fw.subs.contains id then ({ d with fw := { d.fw with subs := d.fw.subs.erase id } }, "ok") else (d, "raise")
+     | none => (d, "bad-op"))
   | ["fspec"] => (d, fspecLine d.fw.cfg d.fw.s)
   | "gen" :: rest =>
     match ints? rest with
